@@ -18,12 +18,13 @@ TransformFree(c) == \A r \in SetOf(c.analysed) : r.t = <<"none">>
 NoBuiltins(c) == \A r \in SetOf(c.analysed) : \A i \in DOMAIN r.b : r.b[i][1] \in {"pos", "neg", "eq", "ne"}
 GoalVerdicts(c, g) ==
   LET M == SetOf(c.facts)  rules == SetOf(c.analysed) IN
-  (IF \E k \in DOMAIN g.proofs : Complete(g.proofs[k]) /\ ~ValidProof(g.proofs[k], rules, EdbPreds(c), M, {})
+  (IF \E k \in DOMAIN g.proofs : Complete(g.proofs[k]) /\ ~ValidProof(g.proofs[k], rules, EdbPreds(c), SetOf(c.edb), M, {})
    THEN {"INVALID_PROOF"} ELSE {})
   \cup (IF \E k \in DOMAIN g.proofs : g.proofs[k].fact # g.goal THEN {"PROOF_OF_ANOTHER_FACT"} ELSE {})
-  \* existence of a complete proof is claimed for post-hoc explanation of transform-free programs; proofs
-  \* rebuilt from a recording may be flagged Partial (they are then not claims)
-  \cup (IF g.mode = "explain" /\ TransformFree(c) /\ NoBuiltins(c) /\ ~\E k \in DOMAIN g.proofs : Complete(g.proofs[k])
+  \* existence of a complete proof is claimed for transform-free programs without built-in predicates, for post-hoc
+  \* explanation and for proofs rebuilt from a recording alike (the first recorded derivation of every fact is
+  \* well-founded, so a complete proof can always be rebuilt)
+  \cup (IF TransformFree(c) /\ NoBuiltins(c) /\ ~\E k \in DOMAIN g.proofs : Complete(g.proofs[k])
         THEN {"NO_COMPLETE_PROOF"} ELSE {})
   \cup (IF Len(g.proofs) > g.maxproofs THEN {"TOO_MANY_PROOFS"} ELSE {})
 Verdicts(c) ==
